@@ -274,8 +274,9 @@ def run(rep, tier):
     for th in ([pick(["nat"] + op_th)] if quick else ["nat", "logic_base"] + op_th):
         its = lib[th]["items"]
         named = [it for it in its if it[1]]
-        mid = named[len(named) // 2]
-        add([{"op": "load", "name": th, "limit": mid}])
+        if named:                      # a theory file may have no named item at all (only imports)
+            mid = named[len(named) // 2]
+            add([{"op": "load", "name": th, "limit": mid}])
         add([{"op": "load", "name": pick(canon_ths)}, {"op": "load", "name": th, "limit": ["thm", "verif_no_such_item"]}])
         add([{"op": "load", "name": th, "limit": "start"}, {"op": "load", "name": th}])
     # injected failure, then the same load again / a dependent load
